@@ -15,7 +15,7 @@ Theorem C03_run_is_spec :
       run_suite rk vexpr m cap n =
       Finished (vexpr (passes (total n)) (failures (total n)) (skips (total n)) (exceptions (total n)))
                (mkp (node_c n) (total n) [] [] f' (spec_events [] czero n)).
-Proof. intros rk vexpr m cap n Hrk. apply run_suite_spec. apply builtin_rk_folds. exact Hrk. Qed.
+Proof. exact (fun rk vexpr m cap n Hrk => run_suite_spec rk vexpr m cap n (builtin_rk_folds rk Hrk)). Qed.
 Print Assumptions C03_run_is_spec.
 
 (* totals = sum over the tests of what each does when run alone *)
@@ -37,7 +37,7 @@ Theorem C03_exception_names_producer :
   forall n path tot0 cr sg,
     In (EIncomplete cr sg) (spec_events path tot0 n) ->
     exists s t, In (s, t) (tests_of n) /\ hd_error cr = Some (tid t) /\ tskip t = false /\
-                exists d, own_death s t = Some d /\ sg = sig_text (Some d).
+                abnormal (own_msgs s t) (own_death s t) = true /\ sg = sig_text (own_death s t).
 Proof. exact incomplete_names_producer. Qed.
 Print Assumptions C03_exception_names_producer.
 
